@@ -1,9 +1,12 @@
 package main
 
 import (
+	"encoding/json"
 	"fmt"
 	"os"
+	"path/filepath"
 	"regexp"
+	"sort"
 	"strings"
 	"time"
 )
@@ -189,9 +192,40 @@ func macroGraphs(r *Rng) []Project {
 	return out
 }
 
+// corpusProjects: the witnesses of the known findings of this property and past failing inputs, run first
+func corpusProjects() []Project {
+	var out []Project
+	files, _ := filepath.Glob(filepath.Join(verifDir(), "replays", "known", "F*.json"))
+	sort.Strings(files)
+	for _, f := range files {
+		b, err := os.ReadFile(f)
+		if err != nil {
+			continue
+		}
+		var w struct {
+			Property  string `json:"property"`
+			Violation struct {
+				Input struct {
+					Files map[string]string `json:"files"`
+					Root  string            `json:"root"`
+				} `json:"input"`
+			} `json:"violation"`
+		}
+		if json.Unmarshal(b, &w) != nil || w.Property != "C01" || len(w.Violation.Input.Files) == 0 {
+			continue
+		}
+		p := Project{Files: map[string][]byte{}, Root: w.Violation.Input.Root}
+		for k, v := range w.Violation.Input.Files {
+			p.Files[k] = unhx(v)
+		}
+		out = append(out, p)
+	}
+	return out
+}
+
 func runC01(ctx *Ctx) {
 	r := ctx.Rng.Fork()
-	var projects []Project
+	projects := corpusProjects()
 	depth := 2
 	enumTokenSeqs(scanTokens, depth, func(b []byte) { projects = append(projects, SingleFile(append([]byte("JSIGHT 0.3\n"), b...))) })
 	for i := 0; i < ctx.Budget(30000, 2000000); i++ {
